@@ -83,6 +83,16 @@ class OrderTaint:
                                         self.attr.get(t.attr, 'O'):
                                     self.attr[t.attr] = join(self.attr.get(t.attr, 'O'), v)
                                     changed = True
+                            elif isinstance(t, ast.Subscript) and \
+                                    isinstance(t.value, ast.Attribute):
+                                # self.table[k] = <order-tainted value>: the table is an
+                                # ordered container of tainted collections
+                                v = self.value(f, n.value, n)
+                                a = t.value.attr
+                                if v != 'O' and join(self.attr.get(a, 'O'), 'C') != \
+                                        self.attr.get(a, 'O'):
+                                    self.attr[a] = join(self.attr.get(a, 'O'), 'C')
+                                    changed = True
                 # parameter summaries of the callees
                 for n in own_nodes(f.node):
                     if isinstance(n, ast.Call):
